@@ -373,13 +373,100 @@ func (e *env) close() {
 
 // serve runs a handler the way the mux does (error -> status), catching panics
 func serve(h content.HandlerFunc, url string) (status string, body string) {
+	return serveCtx(context.Background(), h, url)
+}
+
+// reqCtx: the state of the REQUEST context while the handler runs.  The worker
+// wraps every handler in middleware.Timeout (http.TimeoutHandler cancels the
+// request context at the deadline and lets the handler goroutine run on), and
+// a client / Cloud Tasks disconnect cancels it too.  kind: live, cancel (done
+// after `after` objects have been opened for reading; 0 = before the request),
+// deadline (same, by an expired deadline).
+type reqCtx struct {
+	kind  string
+	after int
+}
+
+func genReqCtx(maxAfter int) reqCtx {
+	switch vrnd.Intn(10) {
+	case 0:
+		return reqCtx{"cancel", 0}
+	case 1:
+		return reqCtx{"cancel", vrnd.Intn(maxAfter + 1)}
+	case 2:
+		return reqCtx{"deadline", vrnd.Intn(maxAfter + 1)}
+	}
+	return reqCtx{"live", -1}
+}
+
+func (c reqCtx) tokens() []string { return []string{c.kind, I(int64(c.after))} }
+
+// serveWith runs mk(api) under the request context described by c: the buckets
+// are wrapped so that the context becomes done when the `after`-th reader is opened.
+func serveWith(c reqCtx, api *storage.API, mk func(*storage.API) content.HandlerFunc, url string) (string, string) {
+	if c.kind == "live" {
+		return serve(mk(api), url)
+	}
+	var ctx context.Context
+	var cancel context.CancelFunc
+	done := func() {}
+	if c.kind == "cancel" {
+		ctx, cancel = context.WithCancel(context.Background())
+		done = cancel
+	} else {
+		// a deadline that has passed once `done` has been called
+		dl := &deadlineCtx{Context: context.Background(), doneCh: make(chan struct{})}
+		ctx = dl
+		cancel = func() {}
+		done = dl.expire
+	}
+	defer cancel()
+	st := &fdState{}
+	opened := 0
+	st.onOpen = func() {
+		if opened == c.after {
+			done()
+		}
+		opened++
+	}
+	if c.after == 0 {
+		done()
+		opened = 1
+	}
+	wrapped := &storage.API{Upload: &fdBucket{api.Upload, st}, Merge: &fdBucket{api.Merge, st}, Chart: &fdBucket{api.Chart, st}}
+	return serveCtx(ctx, mk(wrapped), url)
+}
+
+// deadlineCtx: a context whose deadline "passes" when expire is called
+type deadlineCtx struct {
+	context.Context
+	doneCh  chan struct{}
+	expired bool
+}
+
+func (d *deadlineCtx) expire() {
+	if !d.expired {
+		d.expired = true
+		close(d.doneCh)
+	}
+}
+func (d *deadlineCtx) Done() <-chan struct{} { return d.doneCh }
+func (d *deadlineCtx) Err() error {
+	if d.expired {
+		return context.DeadlineExceeded
+	}
+	return nil
+}
+func (d *deadlineCtx) Deadline() (time.Time, bool) { return time.Unix(0, 0), true }
+
+func serveCtx(ctx context.Context, h content.HandlerFunc, url string) (status string, body string) {
 	defer func() {
 		if r := recover(); r != nil {
 			status, body = "panic", fmt.Sprint(r)
 		}
 	}()
 	w := httptest.NewRecorder()
-	r := httptest.NewRequest("GET", url, nil)
+	r := httptest.NewRequest("GET", url, nil).WithContext(ctx)
 	h.ServeHTTP(w, r)
 	switch w.Code {
 	case 200:
@@ -859,7 +946,11 @@ func caseChart() {
 		url = "/chart/?start=" + days[0].date + "&end=" + days[ndays-1].date
 	}
 	h := handleChart(ucfg, e.api)
-	status, _ := serve(h, url)
+	rc := genReqCtx(ndays)
+	status, _ := serveWith(rc, e.api, func(a *storage.API) content.HandlerFunc { return handleChart(ucfg, a) }, url)
+	if rc.kind != "live" {
+		vout.Note("chart-request-context-" + rc.kind)
+	}
 	chartDir := filepath.Join(e.dir, "chart")
 	readChart := func() (string, []byte) {
 		ents, _ := os.ReadDir(chartDir)
@@ -872,6 +963,7 @@ func caseChart() {
 	objName, first := readChart()
 
 	fields := []string{"chart"}
+	fields = append(fields, rc.tokens()...)
 	fields = append(fields, cfgTokens(cfg)...)
 	var semKeys, goKeys []string
 	for _, p := range cfg.Programs {
@@ -1254,8 +1346,14 @@ func caseSeq() {
 			if ndays == 1 && vrnd.Bool() {
 				url = "/chart/?date=" + dates[0]
 			}
-			status, _ := serve(handleChart(ucfg, e.api), url)
-			ops = append(ops, "chart", I(dayNumber(start)), I(dayNumber(end)), status)
+			rc := genReqCtx(ndays)
+			status, _ := serveWith(rc, e.api, func(a *storage.API) content.HandlerFunc { return handleChart(ucfg, a) }, url)
+			if rc.kind != "live" {
+				vout.Note("seq-chart-request-context-" + rc.kind)
+			}
+			ops = append(ops, "chart")
+			ops = append(ops, rc.tokens()...)
+			ops = append(ops, I(dayNumber(start)), I(dayNumber(end)), status)
 			if status == "ok" {
 				ents, _ := os.ReadDir(filepath.Join(e.dir, "chart"))
 				if len(ents) != 1 {
@@ -1420,6 +1518,7 @@ func caseCopy() {
 type fdState struct {
 	openR, peakR, openW, budget int
 	refused                      int
+	onOpen                       func() // called before each NewReader
 }
 type fdBucket struct {
 	storage.BucketHandle
@@ -1444,6 +1543,9 @@ func (b *fdBucket) Object(name string) storage.ObjectHandle {
 	return &fdObject{b.BucketHandle.Object(name), b.st}
 }
 func (o *fdObject) NewReader(ctx context.Context) (io.ReadCloser, error) {
+	if o.st.onOpen != nil {
+		o.st.onOpen()
+	}
 	if o.st.budget > 0 && o.st.openR >= o.st.budget {
 		o.st.refused++
 		return nil, &os.PathError{Op: "open", Path: "object", Err: syscall.EMFILE}
